@@ -2,7 +2,7 @@
    The model is Front/Denote.v (the listener's algorithm + postProcess); see Front/DenoteProps.v. *)
 From Coq Require Import String List ZArith Bool Permutation.
 Import ListNotations.
-Require Import Verif.Front.Ast Verif.Front.Denote Verif.Front.DenoteProps Verif.Front.Canon Verif.Front.CanonProps Verif.Front.CollectProps Verif.Front.OrderProps Verif.Gen.PrimTables Verif.Gen.ListenerState.
+Require Import Verif.Front.Ast Verif.Front.Denote Verif.Front.DenoteProps Verif.Front.Canon Verif.Front.CanonProps Verif.Front.Group Verif.Front.CanonFull Verif.Front.CanonFullProps Verif.Front.PrecProps Verif.Front.CollectProps Verif.Front.OrderProps Verif.Gen.PrimTables Verif.Gen.ListenerState.
 Local Open Scope string_scope.
 Local Open Scope list_scope.
 
@@ -75,10 +75,12 @@ Print Assumptions C02_size_exact_refuted.
 Theorem C02_table_declared_exact : forall ap a table n es items a',
   dtable ap a table n es false items = Some a' -> aget n (a_types a) = None -> NoDup (item_names items) ->
   exists fields at_,
-    aget n (a_types a') = Some (Ty (if table then KRel fields (add_pks fields (item_names items) []) else KTuple fields) false [] at_ "") /\
+    aget n (a_types a') = Some (Ty (if table then KRel fields (add_pks fields (item_allnames items) []) else KTuple fields) false [] at_ "") /\
     (forall f, In (TField f) items -> aget (fd_name f) fields = dfield ap [n] f) /\
+    (forall f arr fs, In (TTuple f arr fs) items -> aget f fields = Some (tuple_field f arr)) /\
     (forall x, aget x fields <> None -> In x (item_names items)) /\
-    (forall n', n' <> n -> aget n' (a_types a') = aget n' (a_types a)) /\
+    (forall n', n' <> n -> ~ In n' (items_type_names n items) -> aget n' (a_types a') = aget n' (a_types a)) /\
+    (forall n', In n' (keys (a_types a')) <-> In n' (keys (a_types a)) \/ n' = n \/ In n' (items_type_names n items)) /\
     a_eps a' = a_eps a /\ a_attrs a' = a_attrs a /\ a_mixins a' = a_mixins a.
 Proof. exact table_declared_exact. Qed.
 Print Assumptions C02_table_declared_exact.
@@ -132,6 +134,133 @@ Print Assumptions C02_denote_is_canon_on_wf_sub.
 Theorem C02_blocks_group_by_application : forall bs, fold_left tstep bs [] = grouped bs.
 Proof. exact fold_tstep_grouped. Qed.
 Print Assumptions C02_blocks_group_by_application.
+
+(* ---- GLOBAL, whole member language (Front/CanonFull.v): the same equality with REST trees (nested paths, path
+   variables, query parameters, every verb, attribute levels in closed form), subscriptions (the subscriber's
+   endpoint in its own application, one call added to the event of the PUBLISHER's application, which the
+   subscription creates when no block declares it) and `.. * <- *` blocks. `canonf` groups the actions of the
+   text by application and the contributions to an application's endpoints by endpoint name; wf_full (boolean):
+   acceptable sizes, every type name declared once per application, every endpoint name either declared by exactly
+   one complete declaration or made of event parts only (`<-> Event` and subscribers' calls, any number). *)
+Theorem C02_listen_is_canonf_on_wf_full : forall s, wf_full s = true -> listen s = Some (canonf s).
+Proof. exact listen_canon_full. Qed.
+Print Assumptions C02_listen_is_canonf_on_wf_full.
+
+Theorem C02_denote_is_canonf_on_wf_full : forall s,
+  wf_full s = true -> no_mixins (canonf s) = true -> no_rescope (canonf s) = true -> no_collector (canonf s) = true ->
+  denote s = Some (canonf s).
+Proof. exact denote_canon_full. Qed.
+Print Assumptions C02_denote_is_canonf_on_wf_full.
+
+(* with mixins / a collector block / re-scoped references: postProcess applied to the declarative reading *)
+Theorem C02_denote_is_post_canonf : forall s, wf_full s = true -> denote s = post (canonf s).
+Proof. exact denote_post_canon_full. Qed.
+Print Assumptions C02_denote_is_post_canonf.
+
+(* the two-application grouping lemma: the actions of a text (block header / member / publisher side of a
+   subscription) taken as lookup-or-create steps on ONE shared application map = the actions grouped by
+   application, each group folded on its own; likewise the contributions to the endpoints of one application,
+   grouped by endpoint name. No well-formedness needed. *)
+Theorem C02_actions_group_by_application : forall xs,
+  fold_left kstepA xs [] = kgrouped act_key ainit aeff (new_app []) xs.
+Proof. exact actions_group_by_application. Qed.
+Print Assumptions C02_actions_group_by_application.
+
+Theorem C02_contributions_group_by_endpoint : forall cs,
+  fold_left kstep_ep cs [] = kgrouped ckey cinit ceff (new_ep "") cs.
+Proof. exact contributions_group_by_endpoint. Qed.
+Print Assumptions C02_contributions_group_by_endpoint.
+
+(* a REST tree is exactly the sequence of its methods' lookup-or-create steps, each with the path / path variables
+   / attribute levels of its position (prefix and attribute stacks in closed form: rest_contribs) *)
+Theorem C02_rest_tree_is_its_methods : forall n ap prefix urls rattrs a, rest_ok n = true ->
+  drest ap prefix urls rattrs n a = Some (set_eps a (fold_left kstep_ep (rest_contribs ap prefix urls rattrs n) (a_eps a))).
+Proof. exact drest_k. Qed.
+Print Assumptions C02_rest_tree_is_its_methods.
+
+(* on the smaller sub-language the two readings coincide *)
+Theorem C02_canonf_extends_canon : forall s, wf_sub s = true -> wf_full s = true -> canonf s = canon s.
+Proof. exact canonf_extends_canon. Qed.
+Print Assumptions C02_canonf_extends_canon.
+
+(* ---- in-place tuples (`field <:` + an indented block of fields, nested to any depth, also `field(1..) <:`):
+   processing one nested field at type path `path` adds to the application EXACTLY the types named by the dotted
+   paths of the in-place tuples below it (ntype_names: `T.f`, `T.f.g`, ...) and touches no other type.
+   (C02_table_declared_exact above says what the enclosing type gets: the field f = reference to [f], or a list of
+   it; C02_types_exact counts the nested names among the declared ones.) *)
+Theorem C02_inplace_tuple_types : forall x ap path acc r, ntuple ap path x acc = Some r ->
+  (forall t, In t (keys (snd r)) <-> In t (keys (snd acc)) \/ In t (ntype_names path x)) /\
+  (forall t, ~ In t (ntype_names path x) -> aget t (snd r) = aget t (snd acc)).
+Proof. exact ntuple_types. Qed.
+Print Assumptions C02_inplace_tuple_types.
+
+Theorem C02_inplace_tuple_current :
+  inplace_push_as_is = true /\ inplace_exit_restores_any_parent = true /\ inplace_array_name_unescaped = true /\
+  inplace_exit_cuts_names = true.
+Proof. exact inplace_tuple_current. Qed.
+Print Assumptions C02_inplace_tuple_current.
+
+(* ---- attribute precedence (addAttrWithPrecedence): one attribute name declared several times on ONE element -
+   inline in the header and again by `@name = value` lines. After any list of annotation lines the element holds
+   the FIRST NON-EMPTY value among the one it held (its inline value) and the annotations of that name in source
+   order - non-empty string or non-empty array (nested arrays included) alike; empty values are overwritten; when
+   all are empty the last stays. All three annotation forms; every name but `patterns`, which accumulates. *)
+Theorem C02_anno_first_nonempty_wins : forall l m n, n <> patterns ->
+  aget n (add_annos m l) = first_nonempty (aget n m) (map anno_value (filter (named n) l)).
+Proof. exact anno_first_nonempty_wins. Qed.
+Print Assumptions C02_anno_first_nonempty_wins.
+
+Theorem C02_anno_other_names_untouched : forall l m k,
+  (forall a, In a l -> anno_name a <> k) -> aget k (add_annos m l) = aget k m.
+Proof. exact anno_other_names_untouched. Qed.
+Print Assumptions C02_anno_other_names_untouched.
+
+Theorem C02_anno_patterns_append : forall m cur new,
+  aget patterns m = Some (AA cur) -> aget patterns (add_anno m (An patterns (NArr (AA new)))) = Some (AA (cur ++ new)).
+Proof. exact anno_patterns_append. Qed.
+Print Assumptions C02_anno_patterns_append.
+
+(* the four element kinds (their images are `add_annos <inline part> <annotation lines>`) *)
+Theorem C02_endpoint_attr_precedence : forall ap n long ps es annos body k, k <> patterns ->
+  aget k (e_attrs (cimage (KEp ap n long ps es annos body))) =
+    first_nonempty (aget k (match es with [] => [] | _ => merge_attrs (make_attrs es) [] end)) (map anno_value (filter (named k) annos)).
+Proof. exact endpoint_attr_precedence. Qed.
+Print Assumptions C02_endpoint_attr_precedence.
+
+Theorem C02_method_attr_precedence : forall ap path urls rattrs md k, k <> patterns ->
+  aget k (e_attrs (cimage (KMethod ap path urls rattrs md))) =
+    first_nonempty (aget k (merge_attrs (method_attrs rattrs md) [])) (map anno_value (filter (named k) (m_annos md))).
+Proof. exact method_attr_precedence. Qed.
+Print Assumptions C02_method_attr_precedence.
+
+Theorem C02_type_attr_precedence : forall ap table n es items k, k <> patterns ->
+  match type_image ap (MType table n es false items) with
+  | Some (_, t) => aget k (ty_attrs t) =
+      first_nonempty (aget k (match es with [] => [] | _ => tdef_merge (make_attrs es) [] end)) (map anno_value (filter (named k) (item_annos items)))
+  | None => False
+  end.
+Proof. exact type_attr_precedence. Qed.
+Print Assumptions C02_type_attr_precedence.
+
+Theorem C02_app_attr_precedence : forall at0 b k, k <> patterns ->
+  aget k (blk_attrs at0 b) =
+    first_nonempty (aget k (match b_attribs b with [] => at0 | es => merge_attrs (make_attrs es) at0 end))
+                   (map anno_value (filter (named k) (block_annos b))).
+Proof. exact app_attr_precedence. Qed.
+Print Assumptions C02_app_attr_precedence.
+
+(* the case analysis of the model is that of the CURRENT source (statements of addAttrWithPrecedence, regenerated) *)
+Theorem C02_prec_shape_current : prec_shape =
+  ["{"; "if attrs == nil {"; "attrs = make(map[string]*sysl.Attribute)"; "}";
+   "if patterns, hasPatterns := attrs[patternsKey]; hasPatterns && key == patternsKey {";
+   "currPatterns := patterns.Attribute.(*sysl.Attribute_A)"; "newPatterns := attr.Attribute.(*sysl.Attribute_A)";
+   "currPatterns.A.Elt = append(currPatterns.A.GetElt(), newPatterns.A.GetElt()...)"; "return attrs"; "}";
+   "if v, exists := attrs[key]; exists && v.Attribute != nil {"; "switch x := v.Attribute.(type) {";
+   "case *sysl.Attribute_S:"; "if x.S != """" {"; "v.SourceContexts = append(v.SourceContexts, attr.SourceContexts...)"; "return attrs"; "}";
+   "case *sysl.Attribute_A:"; "if len(x.A.GetElt()) > 0 {"; "v.SourceContexts = append(v.SourceContexts, attr.SourceContexts...)"; "return attrs"; "}";
+   "}"; "}"; "attrs[key] = attr"; "return attrs"; "}"].
+Proof. exact prec_shape_current. Qed.
+Print Assumptions C02_prec_shape_current.
 
 (* ---- `.. * <- *:` blocks (postProcess: collectorPubSubCalls / applyAttributes). For an entry `tg <- ep [cat]` and ANY
    statement forest: the calls of the result are the calls of the input, one for one and in order, with the entry's
